@@ -13,9 +13,9 @@ import json
 
 STREAMS = ['mkrule', 'match-pairs', 'route-histories', 'client-histories', 'rule-text', 'bus-parse',
            'proxy-gate', 'oracle-vs-spec']
-THEOREMS = ['tables_current', 'match_eq_spec', 'route_exact', 'route_independent_of_raising',
-            'removed_never_invoked', 'ids_never_reused', 'rule_text_roundtrip', 'proxy_gate',
-            'client_refines_router']
+THEOREMS = ['tables_current', 'mtypes_table_is_spec', 'match_eq_spec', 'route_exact', 'route_independent_of_raising',
+            'invoked_exact_each_once', 'removed_never_invoked', 'ids_never_reused', 'rule_text_roundtrip',
+            'bus_rule_is_client_rule', 'proxy_gate', 'proxy_delivery', 'client_refines_router', 'client_signal_exact']
 TRUSTED_BASE = [
     'Python str ==, startswith, endswith, split, slices, "%d" %, int() on ASCII digits, dict insertion order, '
     'getattr/hasattr, truthiness, try/except BaseException (mirrored by hand in Route/*.lean, validated by the streams)',
@@ -459,11 +459,67 @@ def classify(kw, mv, called, verdict, failing):
                     return ('argpath-rule-trailing-slash-prefix',
                             'argNpath %r does not match the argument %r (the argument ends in "/" and is a prefix of the rule value)'
                             % (val, s))
+        ks = sorted(clean_kw(kw))
+        if len(ks) == 1:
+            return 'matching-%s-not-delivered' % ks[0], 'the constraint %s=%r is satisfied by the message but the callback ' \
+                'is not invoked' % (ks[0], kw[ks[0]])
         return 'matching-message-not-delivered', 'every constraint of the rule is satisfied but the callback is not invoked'
     return None, None
 
 
-def judge(ctx, kw, mv, called, where, inp):
+def impl_single(sub, m):
+    """Does the real router invoke the callback of the rule `sub` for the message object m?"""
+    from txdbus import router
+    saved = router.log
+    router.log = LogSpy()
+    try:
+        r = router.MessageRouter()
+        hits = []
+        r.addMatch(hits.append, **call_kw(sub))
+        r.routeMessage(m)
+        return bool(hits)
+    except Exception:
+        return None
+    finally:
+        router.log = saved
+
+
+def attribute(kw, m, mv):
+    """The single constraints of `kw` that the implementation, given that constraint alone, evaluates
+    differently from the oracle on this message: [(sub-rule, oracle verdict, failing)]."""
+    out = []
+    for key in RULE_KEYS:
+        v = kw.get(key)
+        if v is None:
+            continue
+        subs = [{key: [p]} for p in v] if key in ('args', 'arg_paths') else [{key: v}]
+        for sub in subs:
+            verdict, failing = oracle_matches(sub, mv)
+            if verdict is None:
+                continue
+            got = impl_single(sub, m)
+            if got is not None and got != verdict:
+                out.append((sub, verdict, failing))
+    return out
+
+
+def explain(kw, m, mv, called, verdict, failing):
+    """Violation key + text for an observation that contradicts the oracle: blame a single constraint when
+    the implementation gets that constraint wrong on its own, otherwise name the combination."""
+    blamed = attribute(kw, m, mv)
+    for sub, v, f in blamed:
+        if v != called:           # the wrong single constraint explains the direction of the failure
+            key, what = classify(sub, mv, not v, v, f)
+            if key:
+                return key, what + ' (rule %r)' % (clean_kw(kw),) if clean_kw(sub) != clean_kw(kw) else what
+    if called:
+        return 'nonmatching-message-delivered', 'callback invoked although %r are not satisfied (each of them is ' \
+            'evaluated correctly when it is the only constraint)' % (sorted(set(k for k, _ in failing)),)
+    return 'matching-message-not-delivered', 'every constraint of the rule %r is satisfied but the callback is not ' \
+        'invoked (each constraint is evaluated correctly when it is the only one)' % (clean_kw(kw),)
+
+
+def judge(ctx, kw, m, mv, called, where, inp):
     """Evaluate the oracle on one (rule, message, called?) observation of the implementation."""
     verdict, failing = oracle_matches(kw, mv)
     if verdict is None:
@@ -472,7 +528,7 @@ def judge(ctx, kw, mv, called, where, inp):
     if called == verdict:
         ctx.stat('oracle:match' if verdict else 'oracle:no-match')
         return
-    key, what = classify(kw, mv, called, verdict, failing)
+    key, what = explain(kw, m, mv, called, verdict, failing)
     if mv['mtype'] != 4:
         # the property speaks about signals; other message types only reach a router inside the bus
         ctx.stat('oracle:non-signal-mismatch:' + key)
@@ -647,14 +703,14 @@ def stream_pairs(ctx, cases, label):
             outcome = 'addfailed' if rid is None else ('call' if called else ('err' if logged else 'skip'))
             if called > 1:
                 outcome = 'call*%d' % called
-            obs.append((kw, spec, parse, mv, stored, outcome, called, logged))
+            obs.append((kw, spec, parse, mv, stored, outcome, called, logged, m))
             lines.append('mkrule ' + enc_rule(kw))
             lines.append('match ' + enc_rule(kw) + ' ' + enc_msg(mv))
             lines.append('spec ' + enc_rule(kw) + ' ' + enc_msg(mv))
     finally:
         router.log = saved
     out = ctx.model(lines)
-    for i, (kw, spec, parse, mv, stored, outcome, called, logged) in enumerate(obs):
+    for i, (kw, spec, parse, mv, stored, outcome, called, logged, m) in enumerate(obs):
         inp = {'stream': 'match-pairs', 'rule': clean_kw(kw), 'message': spec, 'parsed': parse}
         ctx.case('mkrule', sample={'rule': clean_kw(kw)})
         ctx.case('match-pairs', sample=inp)
@@ -680,7 +736,7 @@ def stream_pairs(ctx, cases, label):
             if verdict is not None and m_spec != ('1' if verdict else '0'):
                 ctx.disagree('oracle-vs-spec', inp, m_spec, verdict)
         if outcome != 'addfailed':
-            judge(ctx, kw, mv, called > 0, 'match-pairs', inp)
+            judge(ctx, kw, m, mv, called > 0, 'match-pairs', inp)
             if called > 1:
                 ctx.violation('invoked-twice', 'one rule, one message: callback invoked %d times' % called, inp=inp,
                               observed=called, expected=1)
@@ -807,10 +863,18 @@ def run_history(ctx, ops, inp_extra=None):
                         rid = wrong[0]
                         kw, cb = live.get(rid, ({}, None))
                         v, failing = oracle_matches(kw, mv)
-                        key, what = classify(kw, mv, rid in got, v, failing)
-                        if rid not in got and raises and any(c in raising for _, c in inv):
-                            key, what = ('callback-exception-stops-routing',
-                                         'a raising callback prevented the matching rule %d from being invoked' % rid)
+                        key, what = explain(kw, m, mv, rid in got, v, failing)
+                        if rid not in got and raises:
+                            raising.clear()
+                            del fired[:]
+                            try:
+                                r.routeMessage(m)
+                            except BaseException:
+                                pass
+                            if rid in [tags[tag] for tag, _ in fired]:
+                                key, what = ('callback-exception-stops-routing',
+                                             'a raising callback prevented the matching rule %d from being invoked '
+                                             '(it is invoked when no callback raises)' % rid)
                         ctx.violation(key or 'invoked-set-differs', what or 'invoked set differs', inp=inp,
                                       observed=sorted(set(got)), expected=sorted(expected))
                     else:
@@ -1014,9 +1078,18 @@ def run_client_history(ctx, ops):
                 raising.update(raises)
                 del fired[:]
                 n0 = spy.n
-                c.dataReceived(m.rawMessage)
+                escaped = None
+                try:
+                    c.dataReceived(m.rawMessage)
+                except BaseException as e:      # Twisted would drop the connection ("lost by the reactor")
+                    escaped = repr(e)
                 inv = [(id_of_tag.get(tag, -1), cb) for tag, cb in fired]
-                impl.append('inv=%s log=%d' % (','.join('%d:%d' % ic for ic in inv) or '.', spy.n - n0))
+                impl.append('inv=%s log=%d' % (','.join('%d:%d' % ic for ic in inv) or '.', spy.n - n0)
+                            + (' escaped' if escaped else ''))
+                if escaped:
+                    ctx.violation('exception-escapes-routing', 'an exception raised by a signal callback escapes '
+                                  'dataReceived (%s): the connection is lost and later callbacks are not invoked' % escaped,
+                                  inp=inp, observed=escaped, expected='no exception')
                 lines.append('csig %s %s' % (enc_raises(raises), enc_msg(mv)))
                 ctx.impl_trace()
                 expected, undecided = [], set()
@@ -1037,10 +1110,18 @@ def run_client_history(ctx, ops):
                     else:
                         kw = live[rid][0]
                         v, failing = oracle_matches(kw, mv)
-                        key, what = classify(kw, mv, rid in got, v, failing)
-                        if rid not in got and any(cb in raising for _, cb in inv):
-                            key, what = ('callback-exception-stops-routing',
-                                         'a raising callback prevented the matching rule %d from being invoked' % rid)
+                        key, what = explain(kw, build_message(spec), mv, rid in got, v, failing)
+                        if rid not in got and raises:
+                            raising.clear()
+                            del fired[:]
+                            try:
+                                c.dataReceived(m.rawMessage)
+                            except BaseException:
+                                pass
+                            if rid in [id_of_tag.get(tag, -1) for tag, _ in fired]:
+                                key, what = ('callback-exception-stops-routing',
+                                             'a raising callback prevented the matching rule %d from being invoked '
+                                             '(it is invoked when no callback raises)' % rid)
                     ctx.violation(key or 'invoked-set-differs', what or 'invoked set differs', inp=inp,
                                   observed=sorted(got), expected=sorted(expected))
                 else:
@@ -1052,7 +1133,8 @@ def run_client_history(ctx, ops):
     if out is not None:
         for i, (a, b) in enumerate(zip(out, impl)):
             if a != b:
-                if a.startswith('inv=') and b.startswith('inv=') and a.split(' ')[0] == b.split(' ')[0]:
+                if a.startswith('inv=') and b.startswith('inv=') and a.split(' ')[0] == b.split(' ')[0] \
+                        and 'escaped' not in b:
                     ctx.stat('log-err-differs')
                     continue
                 ctx.disagree('client-histories', inp, {'line': lines[i], 'out': a}, {'out': b}, detail='op %d' % (i - 1))
@@ -1142,7 +1224,7 @@ def stream_text(ctx, rules, malformed):
                     b.router.routeMessage(m)
                     got = len(peer.sent) > 0
                     if got != v:
-                        key, what = classify(kw, mv, got, v, failing)
+                        key, what = explain(kw, m, mv, got, v, failing)
                         ctx.violation('bus-' + key, 'bus-side rule registered from the text %r: %s' % (text, what),
                                       inp={'stream': 'rule-text', 'rule': clean_kw(kw), 'message': spec},
                                       observed='forwarded' if got else 'not forwarded',
@@ -1365,7 +1447,7 @@ def run(ctx):
 
     # single-key sweep: for every constraint key, satisfied and near-miss, alone
     single = []
-    for _ in range(ctx.scale(quick=150, thorough=1500)):
+    for _ in range(ctx.scale(quick=500, thorough=3000)):
         spec = gen_msg_spec(rng)
         mv = view(build_message(spec))
         kw = gen_rule_for(rng, mv, p_key=0.0)
@@ -1377,28 +1459,28 @@ def run(ctx):
     stream_pairs(ctx, single, 'single-key')
 
     pairs = []
-    for _ in range(ctx.scale(quick=1200, thorough=20000)):
+    for _ in range(ctx.scale(quick=4000, thorough=40000)):
         spec = gen_msg_spec(rng)
         mv = view(build_message(spec))
         kw = gen_rule_for(rng, mv, p_miss=rng.choice([0.0, 0.15, 0.4]))
         pairs.append((kw, spec, rng.random() < 0.85))
     stream_pairs(ctx, pairs, 'random')
 
-    for _ in range(ctx.scale(quick=60, thorough=700)):
+    for _ in range(ctx.scale(quick=200, thorough=2000)):
         run_history(ctx, gen_history(rng, rng.choice([5, 10, 20, 40])))
 
-    for _ in range(ctx.scale(quick=40, thorough=400)):
+    for _ in range(ctx.scale(quick=120, thorough=1200)):
         run_client_history(ctx, gen_client_history(rng, rng.choice([6, 12, 25])))
 
     rules = [{}]
-    for _ in range(ctx.scale(quick=150, thorough=2000)):
+    for _ in range(ctx.scale(quick=400, thorough=4000)):
         mv = view(build_message(gen_msg_spec(rng, 'signal')))
         rules.append(clean_kw(gen_rule_for(rng, mv, p_key=rng.choice([0.2, 0.4, 0.8]))))
     malformed = ['', ',', '=', "a='b',", "type='signal',,path='/a'"] + \
-                [gen_malformed(rng) for _ in range(ctx.scale(quick=300, thorough=5000))]
+                [gen_malformed(rng) for _ in range(ctx.scale(quick=1000, thorough=10000))]
     stream_text(ctx, rules, malformed)
 
-    stream_proxy(ctx, ctx.scale(quick=40, thorough=400))
+    stream_proxy(ctx, ctx.scale(quick=100, thorough=1000))
 
     probe_internal_reentrancy(ctx)
     probe_apostrophe(ctx)
